@@ -79,6 +79,13 @@ def Str.replace (s pat to : Bytes) : Bytes :=
     s.foldr (fun b acc => (if decide (b < 0x80) || decide (b ≥ 0xC0) then to else []) ++ b :: acc) to
   else Str.replaceGo pat to s 0
 
+/-- `s.chars()` as the list of the characters (a Rust `String` is well-formed UTF-8, so the strict decoder applies;
+`iter.rev()` is `List.reverse`, `iter.next()` on a fresh iterator `List.head?`, `opt.map_or(d, f)` a `match`) -/
+def Str.chars (s : Bytes) : List Char :=
+  match ZipVerif.Spec.utf8Strict s with
+  | some cs => cs
+  | none => []
+
 /-- `std::path::MAIN_SEPARATOR` (Unix) -/
 def Path.MAIN_SEPARATOR : Char := '/'
 
